@@ -25,6 +25,11 @@ CHECKS = {
         text="Same histories with idle timeouts from 1 us to 24 h on the simulated clock (and timeout 0 as control). Oracles are exact because running code takes no simulated time: timeout return not before last-new-connection + timeout, not after last-connection-end + timeout, never while an obliged client still has to be served, always eventually when idle; never a self-stop without timeout; listener closed at the timeout return, later dials refused, re-serve works.",
         technique=DST + "simulated clock with accept-deadline expiries as kernel events, ties decided by the seeded scheduler, exact timing oracle",
         ref="DESIGN.md §4 C15"),
+    "C16": dict(
+        text="The life-cycle (C14/C15 histories plus RegisterInterface / GetListener attempts concurrent with serving), protocol (C01/C10) and cancellation workloads run in a -race build. The scheduler's handoffs are hidden from the detector (RaceDisable around park/wake, unobserved accesses to kernel-task shared memory, per-object tokens mirroring fdMutex), so it sees exactly the library's own synchronisation over a serialised, replayable schedule; TSan's duplicate suppression is switched off so every run reports its own races. A report counts if an access stack's first non-stdlib frame is library code; reports between harness frames only exit 2.",
+        technique=DST + "Go race detector as the oracle inside the seeded, serialised schedule",
+        note="Trusted: Go's race detector (sees only accesses that execute; happens-before through sync.Pool inside fmt/encoding/json can hide a race as in any Go program), the hidden-handoff construction of DESIGN.md §2.7, testing/synctest.",
+        ref="DESIGN.md §2.7, §4 C16"),
 }
 
 NA = {
@@ -36,7 +41,7 @@ NA = {
     "C20": "pure function of process-global OS state (environment, pid, inherited fd table) with no seam; a finite configuration product to enumerate in subprocesses, not simulation (DESIGN.md §5)",
 }
 
-PENDING = {'C02': 'simulation-decidable (DESIGN.md §4) but its check is not built yet at this commit; not claimed until it is', 'C03': 'simulation-decidable (DESIGN.md §4) but its check is not built yet at this commit; not claimed until it is', 'C11': 'simulation-decidable (DESIGN.md §4) but its check is not built yet at this commit; not claimed until it is', 'C12': 'simulation-decidable (DESIGN.md §4) but its check is not built yet at this commit; not claimed until it is', 'C13': 'simulation-decidable (DESIGN.md §4) but its check is not built yet at this commit; not claimed until it is', 'C16': 'simulation-decidable (DESIGN.md §4) but its check is not built yet at this commit; not claimed until it is', 'C17': 'simulation-decidable (DESIGN.md §4) but its check is not built yet at this commit; not claimed until it is', 'C18': 'simulation-decidable (DESIGN.md §4) but its check is not built yet at this commit; not claimed until it is', 'C19': 'simulation-decidable (DESIGN.md §4) but its check is not built yet at this commit; not claimed until it is'}
+PENDING = {'C02': 'simulation-decidable (DESIGN.md §4) but its check is not built yet at this commit; not claimed until it is', 'C03': 'simulation-decidable (DESIGN.md §4) but its check is not built yet at this commit; not claimed until it is', 'C11': 'simulation-decidable (DESIGN.md §4) but its check is not built yet at this commit; not claimed until it is', 'C12': 'simulation-decidable (DESIGN.md §4) but its check is not built yet at this commit; not claimed until it is', 'C13': 'simulation-decidable (DESIGN.md §4) but its check is not built yet at this commit; not claimed until it is', 'C17': 'simulation-decidable (DESIGN.md §4) but its check is not built yet at this commit; not claimed until it is', 'C18': 'simulation-decidable (DESIGN.md §4) but its check is not built yet at this commit; not claimed until it is', 'C19': 'simulation-decidable (DESIGN.md §4) but its check is not built yet at this commit; not claimed until it is'}
 
 def main():
     checks = []
